@@ -41,8 +41,11 @@ theorem C07_julia_unpack_invalid : (templateOf .jl).unpack .jl = .invalid := by 
 /-- **Equivalence (partial).**  For Python, TypeScript and Rust: running the generated straight-line program
     at any time and state returns exactly what `Model.__call__` returns — including when the model's cache
     cannot be built (same error) — for every content satisfying the decidable hypothesis `okC`:
-    no surrogates / data, every variable has an equation and stoichiometries mention variables only (excludes
-    F-C07-3), names are distinct (what `Model` enforces) and not of the form `d<x>dt`.  Variables and
+    no surrogates / data, at least one differential equation (excludes F-C07-3 as it is now: `return ()`) and
+    stoichiometries mention variables only, names are distinct (what `Model` enforces) and not of the form
+    `d<x>dt`.  A variable that no reaction changes is inside the hypothesis since `fix: a variable that no
+    reaction changes gets the derivative zero in generated model code` (the conjunct "every variable has an
+    equation" is gone): the program assigns `d<x>dt = 0` for it and returns one entry per variable.  Variables and
     parameters may be defined by initial assignments (parameters since `fix: generated model code assigns
     parameters that are defined by an initial assignment`; the hypothesis "parameters are plain" is gone).
     One further restriction is a limit of this proof, not a finding class, and is covered by the correspondence
@@ -83,23 +86,63 @@ example : resEq (genRun [] wOk .rs [] 1 [3, 5] []) (callRhs wOk 1 [3, 5]) = true
 example : okC wOkIA = true ∧ resEq (genRun [] wOkIA .py [] 1 [3, 5] []) (callRhs wOkIA 1 [3, 5]) = true := by
   decide +kernel
 
-/-- **The full statement is false of the unchanged code.**  F-C07-3: a variable without a reaction is
-    missing from the returned sequence (Python / TypeScript), and the Rust return type no longer matches. -/
+/-- **Variable order = return order, every model, every language, with or without free parameters.**  Whenever
+    generation succeeds, the emitted function takes the requested free parameters as its extra inputs in the
+    requested order, destructures the state into the model's variables in `get_initial_conditions()` order, and
+    returns `d<x>dt` for exactly those names in exactly that order — or `()` when no reaction changes any
+    variable (F-C07-3).  No hypothesis on the model. -/
+theorem C07_return_order (bad : List Name) (c : Content) (L : Lang) (free : List Name) (p : SLP)
+    (h : genModel bad c L free = .ok p) :
+    p.lang = L ∧ p.extra = free ∧ p.ret = retNames p.inputs (diffEqs c.rxns)
+      ∧ p.retUnit = (diffEqs c.rxns).isEmpty
+      ∧ ∃ cache, createCache c = .ok cache ∧ p.inputs = omKeys cache.init :=
+  genModel_shape bad c L free p h
+
+/-- **Every returned name is assigned, every model** (Python / TypeScript / Rust; after `fix: a variable that no
+    reaction changes gets the derivative zero in generated model code`): the return line never mentions a
+    `d<x>dt` that no line of the function defines. -/
+theorem C07_returned_names_assigned (bad : List Name) (c : Content) (L : Lang) (free : List Name) (p : SLP)
+    (hL : L ≠ .jl) (h : genModel bad c L free = .ok p) :
+    ∀ n ∈ p.ret, n ∈ p.assigns.map (·.1) :=
+  genModel_ret_assigned bad c L free p hL h
+
+example : (match genModel [] wNoEq .rs [] with
+    | .ok p => p.ret == ["dxdt", "dzdt"] && p.inputs == ["x", "z"] && p.assigns.map (·.1) == ["k", "r", "dxdt", "dzdt"]
+    | .error _ => false) = true := by decide +kernel
+
+/-- **The full statement is false of the unchanged code.**  F-C07-3: when no reaction changes any variable the
+    generated function returns `()` / `[()]` instead of one zero per variable (Python: a list holding an empty
+    tuple; TypeScript: not an expression; Rust: the return type does not match). -/
 theorem C07_equiv_full_false :
     ¬ (∀ (c : Content) (L : Lang) (t : Rat) (xs : List Rat), L ≠ .jl → xs.length = c.vars.length →
         genRun [] c L [] t xs [] = callRhs c t xs) := by
   intro h
-  have h1 := h wNoEq .py 0 [3, 1] (by decide) rfl
-  have h2 : resEq (genRun [] wNoEq .py [] 0 [3, 1] []) (callRhs wNoEq 0 [3, 1]) = true := by
-    rw [h1]; cases callRhs wNoEq 0 [3, 1] <;> simp [resEq]
+  have h1 := h wNoEqAtAll .py 0 [3, 1] (by decide) rfl
+  have h2 : resEq (genRun [] wNoEqAtAll .py [] 0 [3, 1] []) (callRhs wNoEqAtAll 0 [3, 1]) = true := by
+    rw [h1]; cases callRhs wNoEqAtAll 0 [3, 1] <;> simp [resEq]
   revert h2
   decide +kernel
 
 theorem C07_missing_equation_witness :
+    resEq (callRhs wNoEqAtAll 0 [3, 1]) (.ok [0, 0]) = true
+    ∧ isErrOther "ReturnNotNumeric" (genRun [] wNoEqAtAll .py [] 0 [3, 1] []) = true
+    ∧ isErrOther "SyntaxError" (genRun [] wNoEqAtAll .ts [] 0 [3, 1] []) = true
+    ∧ isErrOther "ReturnTypeMismatch" (genRun [] wNoEqAtAll .rs [] 0 [3, 1] []) = true
+    ∧ okC wNoEqAtAll = false := by decide +kernel
+
+/-- former F-C07-3 witness (repaired by `fix: a variable that no reaction changes gets the derivative zero in
+    generated model code`): `z` occurs in no reaction while `x` does; the generated function assigns `dzdt = 0`
+    and returns one entry per variable, in the order of the variables, in Python, TypeScript and Rust.  The witness
+    is now inside `okC`, so `C07_equiv_partial` applies to it. -/
+theorem C07_constant_variable_witness :
     resEq (callRhs wNoEq 0 [3, 1]) (.ok [-6, 0]) = true
-    ∧ resEq (genRun [] wNoEq .py [] 0 [3, 1] []) (.ok [-6]) = true
-    ∧ isErrOther "ReturnTypeMismatch" (genRun [] wNoEq .rs [] 0 [3, 1] []) = true
-    ∧ okC wNoEq = false := by decide +kernel
+    ∧ resEq (genRun [] wNoEq .py [] 0 [3, 1] []) (.ok [-6, 0]) = true
+    ∧ resEq (genRun [] wNoEq .ts [] 0 [3, 1] []) (.ok [-6, 0]) = true
+    ∧ resEq (genRun [] wNoEq .rs [] 0 [3, 1] []) (.ok [-6, 0]) = true
+    ∧ okC wNoEq = true := by decide +kernel
+
+example : genRun [] wNoEq .rs [] 0 [3, 1] [] = callRhs wNoEq 0 [3, 1] :=
+  C07_equiv_partial wNoEq .rs 0 [3, 1] (by decide) (by decide +kernel) rfl
 
 /-- former F-C07-5 witness (repaired): a parameter defined by an initial assignment is written as a constant
     with the value the model resolved for it; the witness is now inside the hypothesis and the outputs agree.
